@@ -205,7 +205,7 @@ Proof.
     intros done st fuel first rest M I Cp N F Hns Hnt Hok Hnd.
   - destruct fuel as [|f]; [simpl in F; lia|].
     cbn [map concat app matrix_loop]. rewrite Cp. cbn [next_tok negb andb].
-    change (is_eol t_semi) with false. cbv iota. rewrite text_eqb_refl.
+    change (is_eol t_semi) with false. cbv iota. rewrite text_eqb_refl. rewrite I. cbv iota.
     rewrite List.app_nil_r.
     assert (E : map fst done = x_ns st) by (rewrite Hns; destruct simple; simpl; rewrite ?List.app_nil_r; reflexivity).
     rewrite E. rewrite set_ns_id. cbn [map]. rewrite ?List.app_nil_r. reflexivity.
